@@ -786,7 +786,7 @@ def run(ctx):
         raise vlib.Inconclusive("GenValBounds emitted nothing")
     raw_bfs.sort(key=lambda s: json.dumps(s, sort_keys=True))
     raw_sim.sort(key=lambda s: json.dumps(s, sort_keys=True))
-    lim_bfs, lim_sim = (600, 260) if not T else (9000, 3200)
+    lim_bfs, lim_sim = (600, 260) if not T else (9000, 2400)
     ch_bfs, n_bfs, _ = select(raw_bfs, rng, lim_bfs)
     exhaustive_bfs = n_bfs <= lim_bfs
     ch_sim, n_sim, n_classes = select(raw_sim, rng, lim_sim)
